@@ -1,8 +1,8 @@
-\* C19: 3 workers, 3 keys, one crash (thorough)
+\* C19: 3 workers, 3 keys, one crash (thorough); one write step: empty or whole files only
 CONSTANTS
     NKeys = 3
     W = 3
-    L = 2
+    L = 1
     Design = "temp"
     Policy = "trust"
     RenameAt = "closed"
